@@ -11,7 +11,18 @@
 //	                  | (nohier)      the layout the backend holds, when it is one the property quantifies over
 //
 // <backend> = (backend <principal> <homeset> (coll <path> n d m (obj <path> l t e)...)...)
-// <req>     = (req <method> <path> 0|1|inf good|alt|bad|(mg href...))
+// <req>     = (req <method> <path> 0|1|inf good|alt|bad|(mg href...) [<delivery>])
+// <delivery> = exact (default) | unknown | nobody | chunked      how the body (or its absence) reaches the handler
+//
+// Stage history:
+//
+//	(hist cal|card <hprefix> (step <backend> <req> <layout>)...)    <obs of the LAST step>
+//	(dhist cal|card <hprefix> (dstep <backend> <start> <hier>)...)  <discovery result of the LAST step>
+//	    ONE shared Handler serves all steps; each step's user (its backend = what the multi-user
+//	    backend holds for that user) travels in the request context; a line is emitted for every
+//	    prefix of a sequence, and every step is judged by the model on its own inputs
+//	(par cal|card <hprefix> (step ...))   one step, served while other users' requests overlap on the same Handler
+//
 // <layout>  = (layout (ps...) 0|1 (rs...) 0|1) | (nolayout)
 package main
 
@@ -115,6 +126,43 @@ func testCard() vcard.Card {
 	return c
 }
 
+// A request may carry its user in its context (a multi-user backend behind ONE
+// shared Handler): the user's world and the recorder of that request.
+type userKey struct{}
+type userCtx struct {
+	w *world
+	r *recorder
+}
+
+func withUser(ctx context.Context, w *world, r *recorder) context.Context {
+	return context.WithValue(ctx, userKey{}, &userCtx{w, r})
+}
+
+func (b *calBackend) world(ctx context.Context) *world {
+	if u, ok := ctx.Value(userKey{}).(*userCtx); ok {
+		return u.w
+	}
+	return b.w
+}
+func (b *calBackend) recd(ctx context.Context) *recorder {
+	if u, ok := ctx.Value(userKey{}).(*userCtx); ok {
+		return u.r
+	}
+	return b.r
+}
+func (b *cardBackend) world(ctx context.Context) *world {
+	if u, ok := ctx.Value(userKey{}).(*userCtx); ok {
+		return u.w
+	}
+	return b.w
+}
+func (b *cardBackend) recd(ctx context.Context) *recorder {
+	if u, ok := ctx.Value(userKey{}).(*userCtx); ok {
+		return u.r
+	}
+	return b.r
+}
+
 // calBackend implements caldav.Backend.
 type calBackend struct {
 	w *world
@@ -122,12 +170,12 @@ type calBackend struct {
 }
 
 func (b *calBackend) CurrentUserPrincipal(ctx context.Context) (string, error) {
-	b.r.rec("pr", "")
-	return b.w.principal, nil
+	b.recd(ctx).rec("pr", "")
+	return b.world(ctx).principal, nil
 }
 func (b *calBackend) CalendarHomeSetPath(ctx context.Context) (string, error) {
-	b.r.rec("hs", "")
-	return b.w.home, nil
+	b.recd(ctx).rec("hs", "")
+	return b.world(ctx).home, nil
 }
 func (b *calBackend) calendar(c *collection) caldav.Calendar {
 	out := caldav.Calendar{Path: c.path}
@@ -156,37 +204,37 @@ func (b *calBackend) calObject(o *object) caldav.CalendarObject {
 	return out
 }
 func (b *calBackend) CreateCalendar(ctx context.Context, c *caldav.Calendar) error {
-	b.r.rec("cc", c.Path)
+	b.recd(ctx).rec("cc", c.Path)
 	return nil
 }
 func (b *calBackend) ListCalendars(ctx context.Context) ([]caldav.Calendar, error) {
-	b.r.rec("lc", "")
+	b.recd(ctx).rec("lc", "")
 	var l []caldav.Calendar
-	for i := range b.w.colls {
-		l = append(l, b.calendar(&b.w.colls[i]))
+	for i := range b.world(ctx).colls {
+		l = append(l, b.calendar(&b.world(ctx).colls[i]))
 	}
 	return l, nil
 }
 func (b *calBackend) GetCalendar(ctx context.Context, p string) (*caldav.Calendar, error) {
-	b.r.rec("gc", p)
-	if c := b.w.findColl(p); c != nil {
+	b.recd(ctx).rec("gc", p)
+	if c := b.world(ctx).findColl(p); c != nil {
 		cal := b.calendar(c)
 		return &cal, nil
 	}
 	return nil, notFound
 }
 func (b *calBackend) GetCalendarObject(ctx context.Context, p string, req *caldav.CalendarCompRequest) (*caldav.CalendarObject, error) {
-	b.r.rec("go", p)
-	if o := b.w.findObj(p); o != nil {
+	b.recd(ctx).rec("go", p)
+	if o := b.world(ctx).findObj(p); o != nil {
 		co := b.calObject(o)
 		return &co, nil
 	}
 	return nil, notFound
 }
 func (b *calBackend) ListCalendarObjects(ctx context.Context, p string, req *caldav.CalendarCompRequest) ([]caldav.CalendarObject, error) {
-	b.r.rec("lo", p)
+	b.recd(ctx).rec("lo", p)
 	var l []caldav.CalendarObject
-	if c := b.w.findColl(p); c != nil {
+	if c := b.world(ctx).findColl(p); c != nil {
 		for i := range c.objs {
 			l = append(l, b.calObject(&c.objs[i]))
 		}
@@ -194,15 +242,15 @@ func (b *calBackend) ListCalendarObjects(ctx context.Context, p string, req *cal
 	return l, nil
 }
 func (b *calBackend) QueryCalendarObjects(ctx context.Context, p string, q *caldav.CalendarQuery) ([]caldav.CalendarObject, error) {
-	b.r.rec("qo", p)
+	b.recd(ctx).rec("qo", p)
 	return nil, nil
 }
 func (b *calBackend) PutCalendarObject(ctx context.Context, p string, cal *ical.Calendar, opts *caldav.PutCalendarObjectOptions) (*caldav.CalendarObject, error) {
-	b.r.rec("po", p)
+	b.recd(ctx).rec("po", p)
 	return &caldav.CalendarObject{Path: p}, nil
 }
 func (b *calBackend) DeleteCalendarObject(ctx context.Context, p string) error {
-	b.r.rec("do", p)
+	b.recd(ctx).rec("do", p)
 	return nil
 }
 
@@ -213,12 +261,12 @@ type cardBackend struct {
 }
 
 func (b *cardBackend) CurrentUserPrincipal(ctx context.Context) (string, error) {
-	b.r.rec("pr", "")
-	return b.w.principal, nil
+	b.recd(ctx).rec("pr", "")
+	return b.world(ctx).principal, nil
 }
 func (b *cardBackend) AddressBookHomeSetPath(ctx context.Context) (string, error) {
-	b.r.rec("hs", "")
-	return b.w.home, nil
+	b.recd(ctx).rec("hs", "")
+	return b.world(ctx).home, nil
 }
 func (b *cardBackend) book(c *collection) carddav.AddressBook {
 	out := carddav.AddressBook{Path: c.path}
@@ -247,41 +295,41 @@ func (b *cardBackend) cardObject(o *object) carddav.AddressObject {
 	return out
 }
 func (b *cardBackend) ListAddressBooks(ctx context.Context) ([]carddav.AddressBook, error) {
-	b.r.rec("lc", "")
+	b.recd(ctx).rec("lc", "")
 	var l []carddav.AddressBook
-	for i := range b.w.colls {
-		l = append(l, b.book(&b.w.colls[i]))
+	for i := range b.world(ctx).colls {
+		l = append(l, b.book(&b.world(ctx).colls[i]))
 	}
 	return l, nil
 }
 func (b *cardBackend) GetAddressBook(ctx context.Context, p string) (*carddav.AddressBook, error) {
-	b.r.rec("gc", p)
-	if c := b.w.findColl(p); c != nil {
+	b.recd(ctx).rec("gc", p)
+	if c := b.world(ctx).findColl(p); c != nil {
 		ab := b.book(c)
 		return &ab, nil
 	}
 	return nil, notFound
 }
 func (b *cardBackend) CreateAddressBook(ctx context.Context, ab *carddav.AddressBook) error {
-	b.r.rec("cc", ab.Path)
+	b.recd(ctx).rec("cc", ab.Path)
 	return nil
 }
 func (b *cardBackend) DeleteAddressBook(ctx context.Context, p string) error {
-	b.r.rec("dc", p)
+	b.recd(ctx).rec("dc", p)
 	return nil
 }
 func (b *cardBackend) GetAddressObject(ctx context.Context, p string, req *carddav.AddressDataRequest) (*carddav.AddressObject, error) {
-	b.r.rec("go", p)
-	if o := b.w.findObj(p); o != nil {
+	b.recd(ctx).rec("go", p)
+	if o := b.world(ctx).findObj(p); o != nil {
 		ao := b.cardObject(o)
 		return &ao, nil
 	}
 	return nil, notFound
 }
 func (b *cardBackend) ListAddressObjects(ctx context.Context, p string, req *carddav.AddressDataRequest) ([]carddav.AddressObject, error) {
-	b.r.rec("lo", p)
+	b.recd(ctx).rec("lo", p)
 	var l []carddav.AddressObject
-	if c := b.w.findColl(p); c != nil {
+	if c := b.world(ctx).findColl(p); c != nil {
 		for i := range c.objs {
 			l = append(l, b.cardObject(&c.objs[i]))
 		}
@@ -289,15 +337,15 @@ func (b *cardBackend) ListAddressObjects(ctx context.Context, p string, req *car
 	return l, nil
 }
 func (b *cardBackend) QueryAddressObjects(ctx context.Context, p string, q *carddav.AddressBookQuery) ([]carddav.AddressObject, error) {
-	b.r.rec("qo", p)
+	b.recd(ctx).rec("qo", p)
 	return nil, nil
 }
 func (b *cardBackend) PutAddressObject(ctx context.Context, p string, card vcard.Card, opts *carddav.PutAddressObjectOptions) (*carddav.AddressObject, error) {
-	b.r.rec("po", p)
+	b.recd(ctx).rec("po", p)
 	return &carddav.AddressObject{Path: p}, nil
 }
 func (b *cardBackend) DeleteAddressObject(ctx context.Context, p string) error {
-	b.r.rec("do", p)
+	b.recd(ctx).rec("do", p)
 	return nil
 }
 
@@ -341,6 +389,7 @@ type request struct {
 	method, path, depth string
 	variant             string   // good alt bad mg
 	hrefs               []string // for mg
+	dl                  string   // "" exact | unknown | nobody | chunked
 }
 
 func reqSx(q request) string {
@@ -351,6 +400,9 @@ func reqSx(q request) string {
 			items = append(items, hx.S(h))
 		}
 		v = hx.L(items...)
+	}
+	if q.dl != "" && q.dl != "exact" {
+		return hx.L("req", q.method, hx.S(q.path), q.depth, v, q.dl)
 	}
 	return hx.L("req", q.method, hx.S(q.path), q.depth, v)
 }
@@ -365,6 +417,9 @@ func parseReq(x hx.Sx) request {
 		}
 	} else {
 		q.variant = a[3].Atom
+	}
+	if len(a) > 4 {
+		q.dl = a[4].Atom
 	}
 	return q
 }
@@ -473,7 +528,26 @@ func build(srv string, q request) *http.Request {
 	for k, v := range hdr {
 		req.Header.Set(k, v)
 	}
+	switch q.dl {
+	case "unknown":
+		// ContentLength -1 and a reader of undisclosed type, as net/http hands over a chunked body
+		req.Body = io.NopCloser(struct{ io.Reader }{strings.NewReader(body)})
+		req.ContentLength = -1
+		req.TransferEncoding = []string{"chunked"}
+	case "nobody":
+		if body == "" {
+			req.Body = http.NoBody
+			req.ContentLength = 0
+		}
+	}
 	return req
+}
+
+// serveChunked sends the request built by build over TCP to a real server with
+// Transfer-Encoding: chunked (an empty body is the terminating chunk alone).
+func serveChunked(h http.Handler, req *http.Request) (code int, header http.Header, data []byte, ok bool) {
+	body, _ := io.ReadAll(req.Body)
+	return hx.ChunkedDo(h, req.Method, escaped(req.URL.Path), req.Header, string(body))
 }
 
 type msHrefs struct {
@@ -495,24 +569,49 @@ func execServe(x hx.Sx) (obs string) {
 	a := x.Args()
 	srv, hprefix, w, q := a[0].Atom, a[1].Str(), parseWorld(a[2]), parseReq(a[3])
 	rec := &recorder{}
+	return serveOne(handler(srv, hprefix, w, rec), srv, q, rec, nil)
+}
+
+// serveOne serves q by h and reduces the answer; with user != nil the request
+// carries that user (world + recorder) in its context.
+func serveOne(h http.Handler, srv string, q request, rec *recorder, user *world) (obs string) {
 	defer func() {
 		if r := recover(); r != nil {
 			obs = hx.L("panic", hx.L(append([]string{"trace"}, rec.calls...)...))
 		}
 	}()
-	h := handler(srv, hprefix, w, rec)
 	req := build(srv, q)
 	if req.URL.Path != q.path {
 		return hx.L("harness-path-mismatch", hx.S(req.URL.Path))
 	}
-	rr := httptest.NewRecorder()
-	h.ServeHTTP(rr, req)
+	if user != nil {
+		req = req.WithContext(withUser(req.Context(), user, rec))
+	}
+	var code int
+	var header http.Header
+	var data []byte
+	if q.dl == "chunked" {
+		var ok bool
+		hh := h
+		if user != nil {
+			hh = http.HandlerFunc(func(w http.ResponseWriter, r *http.Request) {
+				h.ServeHTTP(w, r.WithContext(withUser(r.Context(), user, rec)))
+			})
+		}
+		if code, header, data, ok = serveChunked(hh, req); !ok {
+			return hx.L("harness-chunked-failed")
+		}
+	} else {
+		rr := httptest.NewRecorder()
+		h.ServeHTTP(rr, req)
+		code, header, data = rr.Code, rr.Header(), rr.Body.Bytes()
+	}
 	var hrefs []string
 	extra := ""
 	switch {
-	case rr.Code == http.StatusMultiStatus:
+	case code == http.StatusMultiStatus:
 		var ms msHrefs
-		if err := xml.Unmarshal(rr.Body.Bytes(), &ms); err != nil {
+		if err := xml.Unmarshal(data, &ms); err != nil {
 			hrefs = append(hrefs, "!undecodable body")
 		}
 		for _, r := range ms.Responses {
@@ -523,13 +622,68 @@ func execServe(x hx.Sx) (obs string) {
 				hrefs = append(hrefs, hrefPath(h))
 			}
 		}
-	case rr.Code == http.StatusPermanentRedirect:
-		extra = hrefPath(rr.Header().Get("Location"))
+	case code == http.StatusPermanentRedirect:
+		extra = hrefPath(header.Get("Location"))
 	case req.Method == http.MethodOptions:
-		extra = rr.Header().Get("Allow")
+		extra = header.Get("Allow")
 	}
-	return hx.L("obs", hx.L(append([]string{"trace"}, rec.calls...)...), hx.I(int64(rr.Code)),
+	return hx.L("obs", hx.L(append([]string{"trace"}, rec.calls...)...), hx.I(int64(code)),
 		hx.L(append([]string{"hrefs"}, mapS(hrefs)...)...), hx.S(extra))
+}
+
+// sharedHandler: ONE Handler for all users; the doubles take the user from the context
+func sharedHandler(srv, hprefix string) http.Handler {
+	return handler(srv, hprefix, &world{}, &recorder{})
+}
+
+// execHist serves the steps one after the other by one shared Handler and
+// reports the observation of the last one.
+func execHist(x hx.Sx) (obs string) {
+	a := x.Args()
+	srv, hprefix := a[0].Atom, a[1].Str()
+	h := sharedHandler(srv, hprefix)
+	for _, st := range a[2:] {
+		sa := st.Args()
+		obs = serveOne(h, srv, parseReq(sa[1]), &recorder{}, parseWorld(sa[0]))
+	}
+	return obs
+}
+
+// execPar serves the step while requests of other users overlap on the same Handler.
+func execPar(x hx.Sx) (obs string) {
+	a := x.Args()
+	srv, hprefix := a[0].Atom, a[1].Str()
+	sa := a[2].Args()
+	w, q := parseWorld(sa[0]), parseReq(sa[1])
+	h := sharedHandler(srv, hprefix)
+	others := []*world{
+		{principal: "/zz-other-1/", home: "/zz-other-1/h/"},
+		{principal: w.principal + "x/", home: w.home + "x/"},
+		{principal: "/", home: "/h"},
+	}
+	var wg sync.WaitGroup
+	stop := make(chan struct{})
+	for _, o := range others {
+		wg.Add(1)
+		go func(o *world) {
+			defer wg.Done()
+			for i := 0; ; i++ {
+				select {
+				case <-stop:
+					return
+				default:
+				}
+				oq := request{method: "PROPFIND", path: []string{o.principal, "/", o.home, w.principal}[i%4], depth: "0", variant: "good"}
+				serveOne(h, srv, oq, &recorder{}, o)
+			}
+		}(o)
+	}
+	for i := 0; i < 3; i++ {
+		obs = serveOne(h, srv, q, &recorder{}, w)
+	}
+	close(stop)
+	wg.Wait()
+	return obs
 }
 
 func mapS(l []string) []string {
@@ -550,17 +704,58 @@ func execDisc(x hx.Sx) (obs string) {
 			obs = hx.L("panic")
 		}
 	}()
-	rec := &recorder{}
-	ts := httptest.NewServer(handler(srv, hprefix, w, rec))
+	ts := httptest.NewServer(handler(srv, hprefix, w, &recorder{}))
 	defer ts.Close()
+	return discOne(ts.URL, ts.Client(), srv, start)
+}
+
+// userClient marks every request with the index of its user
+type userClient struct {
+	c   *http.Client
+	idx int
+}
+
+func (u *userClient) Do(req *http.Request) (*http.Response, error) {
+	req.Header.Set("X-Verif-User", fmt.Sprint(u.idx))
+	return u.c.Do(req)
+}
+
+// execDhist: the users run their discovery chains one after the other against
+// ONE server with ONE shared Handler; the result of the last chain is reported.
+func execDhist(x hx.Sx) (obs string) {
+	a := x.Args()
+	srv, hprefix := a[0].Atom, a[1].Str()
+	defer func() {
+		if r := recover(); r != nil {
+			obs = hx.L("panic")
+		}
+	}()
+	var worlds []*world
+	for _, st := range a[2:] {
+		worlds = append(worlds, parseWorld(st.Args()[0]))
+	}
+	h := sharedHandler(srv, hprefix)
+	ts := httptest.NewServer(http.HandlerFunc(func(w http.ResponseWriter, r *http.Request) {
+		var i int
+		fmt.Sscan(r.Header.Get("X-Verif-User"), &i)
+		h.ServeHTTP(w, r.WithContext(withUser(r.Context(), worlds[i], &recorder{})))
+	}))
+	defer ts.Close()
+	for i, st := range a[2:] {
+		obs = discOne(ts.URL, &userClient{ts.Client(), i}, srv, st.Args()[1].Str())
+	}
+	return obs
+}
+
+func discOne(base string, hc webdav.HTTPClient, srv, start string) (obs string) {
 	ctx, cancel := context.WithTimeout(context.Background(), 20*time.Second)
 	defer cancel()
-	endpoint := ts.URL + escaped(start)
+	endpoint := base + escaped(start)
 	var principal, home string
 	var colls, objs []string
 	var wc *webdav.Client
 	if srv == "cal" {
-		c, err := caldav.NewClient(ts.Client(), endpoint)
+		c, err := caldav.NewClient(hc, endpoint)
 		if err != nil {
 			return hx.L("fail", "client")
 		}
@@ -579,7 +774,7 @@ func execDisc(x hx.Sx) (obs string) {
 			colls = append(colls, cal.Path)
 		}
 	} else {
-		c, err := carddav.NewClient(ts.Client(), endpoint)
+		c, err := carddav.NewClient(hc, endpoint)
 		if err != nil {
 			return hx.L("fail", "client")
 		}
@@ -639,11 +834,23 @@ func execStr(x hx.Sx) string {
 
 func exec(in string) (line string) {
 	x := hx.MustParse(in)[0]
+	// every call into /repo runs under recover in the goroutine that makes it
+	defer func() {
+		if r := recover(); r != nil {
+			line = in + " " + hx.L("panic")
+		}
+	}()
 	switch x.Head() {
 	case "serve":
 		return in + " " + execServe(x)
 	case "disc":
 		return in + " " + execDisc(x)
+	case "hist":
+		return in + " " + execHist(x)
+	case "dhist":
+		return in + " " + execDhist(x)
+	case "par":
+		return in + " " + execPar(x)
 	default:
 		return in + " " + execStr(x)
 	}
@@ -775,18 +982,27 @@ func mkWorld(ps []string, u, h string, cs, os []string, collSlash bool, flags in
 	return w
 }
 
-type reqKind struct{ method, depth, variant string }
+type reqKind struct{ method, depth, variant, dl string }
 
 var reqKinds = []reqKind{
-	{"OPTIONS", "0", "good"}, {"GET", "0", "good"}, {"HEAD", "0", "good"},
-	{"PUT", "0", "good"}, {"PUT", "0", "bad"}, {"DELETE", "0", "good"},
-	{"PROPFIND", "0", "good"}, {"PROPFIND", "1", "good"}, {"PROPFIND", "inf", "good"},
-	{"PROPPATCH", "0", "good"},
-	{"MKCOL", "0", "good"}, {"MKCOL", "0", "alt"}, {"MKCOL", "0", "bad"},
-	{"COPY", "0", "good"}, {"MOVE", "0", "good"},
-	{"REPORT", "0", "good"}, {"REPORT", "0", "mg"}, {"REPORT", "0", "bad"},
-	{"OTHER", "0", "good"},
+	{"OPTIONS", "0", "good", ""}, {"GET", "0", "good", ""}, {"HEAD", "0", "good", ""},
+	{"PUT", "0", "good", ""}, {"PUT", "0", "bad", ""}, {"DELETE", "0", "good", ""},
+	{"PROPFIND", "0", "good", ""}, {"PROPFIND", "1", "good", ""}, {"PROPFIND", "inf", "good", ""},
+	{"PROPPATCH", "0", "good", ""},
+	{"MKCOL", "0", "good", ""}, {"MKCOL", "0", "alt", ""}, {"MKCOL", "0", "bad", ""},
+	{"COPY", "0", "good", ""}, {"MOVE", "0", "good", ""},
+	{"REPORT", "0", "good", ""}, {"REPORT", "0", "mg", ""}, {"REPORT", "0", "bad", ""},
+	{"OTHER", "0", "good", ""},
+	// how the body, or its absence, reaches the handler: a bodiless MKCOL is a bodiless
+	// MKCOL and a PROPFIND / REPORT body is read to its end, however net/http delivers it
+	{"MKCOL", "0", "good", "unknown"}, {"MKCOL", "0", "good", "nobody"}, {"MKCOL", "0", "good", "chunked"},
+	{"MKCOL", "0", "alt", "unknown"}, {"MKCOL", "0", "alt", "chunked"}, {"MKCOL", "0", "bad", "chunked"},
+	{"PROPFIND", "1", "good", "unknown"}, {"PROPFIND", "inf", "good", "chunked"},
+	{"REPORT", "0", "mg", "chunked"}, {"REPORT", "0", "good", "unknown"},
+	{"PUT", "0", "good", "chunked"}, {"DELETE", "0", "good", "chunked"},
 }
+
+const plainKinds = 19 // the request kinds without a delivery form
 
 func layoutSx(ps []string, pt bool, rs []string, rt bool) string {
 	return hx.L("layout", strList(ps), hx.B(pt), strList(rs), hx.B(rt))
@@ -834,8 +1050,11 @@ func genServe(emit func(string)) {
 					for _, rs := range rests {
 						for _, rt := range []bool{false, true} {
 							p := reqPath(ps, rs, rt)
-							for _, k := range reqKinds {
-								q := request{method: k.method, path: p, depth: k.depth, variant: k.variant}
+							for ki, k := range reqKinds {
+								if !thorough && ki >= plainKinds && ((pi+li+ki)%4 != 0 || (k.dl == "chunked" && (pi+li+ki)%12 != 0)) {
+									continue // a real server per chunked request is costly: volume in the thorough tier
+								}
+								q := request{method: k.method, path: p, depth: k.depth, variant: k.variant, dl: k.dl}
 								if k.variant == "mg" {
 									q.hrefs = []string{w.colls[0].objs[0].path, w.colls[1].path + "/nothing"}
 								}
@@ -856,7 +1075,7 @@ func genServe(emit func(string)) {
 				hprefix := join(ps) + tslash(pt)
 				for _, k := range reqKinds {
 					for _, p := range []string{"/.well-known/caldav", "/.well-known/carddav", "/.well-known/caldav/", "/.well-known"} {
-						q := request{method: k.method, path: p, depth: k.depth, variant: k.variant}
+						q := request{method: k.method, path: p, depth: k.depth, variant: k.variant, dl: k.dl}
 						if k.variant == "mg" {
 							q.hrefs = []string{w.colls[0].objs[0].path}
 						}
@@ -868,10 +1087,11 @@ func genServe(emit func(string)) {
 		w := mkWorld([]string{"dav"}, "u", "h", []string{"c1"}, []string{"o1"}, false, 0)
 		wsx := worldSx(w)
 		odd := []string{"/davx/u", "/da", "/dav/./u/", "/dav/u/../u/h", "/dav//u", "/dav/u//h/c1", "/dav/u/h/c1/o1/.", "/x/dav/u", "/dav/u/h/c1/../../../..", "/DAV/u/"}
-		for _, hprefix := range []string{"/dav", "/dav/", "/dav//", "dav", "/dav/u"} {
+		odd = append(odd, "/dav", "/dav/", "/dav/u/", "/dav/u/h/", "/dav/u/h/c1", "/dav/u/h/c1/o1")
+		for _, hprefix := range []string{"/dav", "/dav/", "/dav//", "dav", "/dav/u", "/dav/./", "/./dav", "//dav", "/dav/../dav", "/DAV", "/dav/.", "/"} {
 			for _, p := range odd {
 				for _, k := range reqKinds {
-					q := request{method: k.method, path: p, depth: k.depth, variant: k.variant}
+					q := request{method: k.method, path: p, depth: k.depth, variant: k.variant, dl: k.dl}
 					if k.variant == "mg" {
 						q.hrefs = []string{"/dav/u/h/c1/o1"}
 					}
@@ -928,7 +1148,7 @@ func genServe(emit func(string)) {
 		}
 		pt, rt := rng.Bool(), rng.Bool()
 		k := reqKinds[rng.Intn(len(reqKinds))]
-		q := request{method: k.method, path: reqPath(ps, rs, rt), depth: k.depth, variant: k.variant}
+		q := request{method: k.method, path: reqPath(ps, rs, rt), depth: k.depth, variant: k.variant, dl: k.dl}
 		if k.variant == "mg" {
 			q.hrefs = []string{reqPath(ps, append(append([]string{}, own...), "x"), false), w.principal}
 		}
@@ -1119,10 +1339,167 @@ func genDisc(emit func(string)) {
 	}
 }
 
+// ---------------------------------------------------------------- histories on ONE shared Handler
+
+type histUser struct {
+	u, h   string
+	cs, os []string
+}
+
+type histStep struct {
+	w   *world
+	q   request
+	lay string
+}
+
+func stepSx(st histStep) string { return hx.L("step", worldSx(st.w), reqSx(st.q), st.lay) }
+
+// shapes: the request a user (me) sends, possibly naming another user's (ot) resources
+func histShapes(srv string, ps []string, pt bool, me, ot histUser, mw *world) []histStep {
+	mk := func(method, depth, variant string, rs []string, rt bool) histStep {
+		q := request{method: method, path: reqPath(ps, rs, rt), depth: depth, variant: variant}
+		return histStep{w: mw, q: q, lay: layoutSx(ps, pt, rs, rt)}
+	}
+	out := []histStep{
+		mk("PROPFIND", "0", "good", nil, false),
+		mk("PROPFIND", "1", "good", nil, true),
+		mk("PROPFIND", "0", "good", []string{me.u}, true),
+		mk("PROPFIND", "1", "good", []string{me.u}, false),
+		mk("PROPFIND", "inf", "good", []string{me.u}, true),
+		mk("PROPFIND", "0", "good", []string{ot.u}, true),
+		mk("PROPFIND", "inf", "good", []string{ot.u}, false),
+		mk("PROPFIND", "1", "good", []string{me.u, me.h}, true),
+		mk("PROPFIND", "1", "good", []string{ot.u, ot.h}, true),
+		mk("PROPFIND", "inf", "good", []string{me.u, ot.h}, false),
+		mk("MKCOL", "0", "good", []string{me.u, me.h, "new"}, false),
+		mk("OPTIONS", "0", "good", []string{me.u, me.h, "c", "o"}, false),
+	}
+	wk := "/.well-known/caldav"
+	if srv == "card" {
+		wk = "/.well-known/carddav"
+	}
+	out = append(out, histStep{w: mw, q: request{method: "PROPFIND", path: wk, depth: "0", variant: "good"}, lay: hx.L("nolayout")})
+	if len(me.cs) > 0 {
+		out = append(out, mk("PROPFIND", "1", "good", []string{me.u, me.h, me.cs[0]}, false))
+		if len(me.os) > 0 {
+			st := mk("REPORT", "0", "mg", []string{me.u, me.h, me.cs[0]}, true)
+			st.q.hrefs = []string{mw.colls[0].objs[0].path}
+			out = append(out, st)
+		}
+	}
+	return out
+}
+
+func genHist(emit func(string)) {
+	rng := hx.NewRand(hx.Seed() + 191)
+	thorough := hx.Tier() == "thorough"
+	users := []histUser{
+		{"alice", "cal", []string{"c1", "c2"}, []string{"o1.ics", "o2"}},
+		{"bob", "h", []string{"work"}, []string{"x y"}},
+		{"a b", "%41", nil, nil},
+	}
+	type pfx struct {
+		ps []string
+		pt bool
+	}
+	pfxs := []pfx{{nil, false}, {[]string{"dav"}, true}, {[]string{"a b", "%41"}, false}}
+	if thorough {
+		pfxs = append(pfxs, pfx{nil, true}, pfx{[]string{"dav"}, false}, pfx{[]string{"a b", "%41"}, true})
+	}
+	emitPrefixes := func(kind, srv, hprefix string, steps []string) {
+		for k := 1; k <= len(steps); k++ {
+			emit(hx.L(append([]string{kind, srv, hx.S(hprefix)}, steps[:k]...)...))
+		}
+	}
+	for _, srv := range []string{"cal", "card"} {
+		for pi, pf := range pfxs {
+			hprefix := join(pf.ps) + tslash(pf.pt)
+			worlds := make([]*world, len(users))
+			for i, u := range users {
+				worlds[i] = mkWorld(pf.ps, u.u, u.h, u.cs, u.os, (pi+i)%2 == 0, pi+i)
+				for ci := range worlds[i].colls {
+					for oi := range worlds[i].colls[ci].objs {
+						worlds[i].colls[ci].objs[oi].l = true
+					}
+				}
+			}
+			// alice, then bob, then alice again: every pair of shapes; stale state left by
+			// step k (a memoised principal, a cached adapter) shows in step k+1
+			a, b := users[0], users[1]
+			sa := histShapes(srv, pf.ps, pf.pt, a, b, worlds[0])
+			sb := histShapes(srv, pf.ps, pf.pt, b, a, worlds[1])
+			for i := range sa {
+				for j := range sb {
+					if !thorough && (i+j+pi)%3 != 0 {
+						continue
+					}
+					third := sa[(i+j)%len(sa)]
+					emitPrefixes("hist", srv, hprefix, []string{stepSx(sa[i]), stepSx(sb[j]), stepSx(third)})
+				}
+			}
+			// random sequences of 2-5 steps of three users
+			n := 60
+			if thorough {
+				n = 1500
+			}
+			for k := 0; k < n; k++ {
+				var steps []string
+				for l := 2 + rng.Intn(4); l > 0; l-- {
+					ui := rng.Intn(len(users))
+					oi := (ui + 1 + rng.Intn(len(users)-1)) % len(users)
+					sh := histShapes(srv, pf.ps, pf.pt, users[ui], users[oi], worlds[ui])
+					steps = append(steps, stepSx(sh[rng.Intn(len(sh))]))
+				}
+				emitPrefixes("hist", srv, hprefix, steps)
+			}
+			// overlapping requests of several users on the shared Handler
+			m := 40
+			if thorough {
+				m = 400
+			}
+			for k := 0; k < m; k++ {
+				ui := rng.Intn(len(users))
+				sh := histShapes(srv, pf.ps, pf.pt, users[ui], users[(ui+1)%len(users)], worlds[ui])
+				emit(hx.L("par", srv, hx.S(hprefix), stepSx(sh[rng.Intn(len(sh))])))
+			}
+			// discovery chains of several users through one server
+			hiers := make([]*hier, len(users))
+			for i, u := range users {
+				h := &hier{ps: pf.ps, u: u.u, h: u.h, uslash: (pi+i)%2 == 0, hslash: i%2 == 0}
+				for ci, cn := range u.cs {
+					c := hcoll{name: cn, slash: (ci+pi)%2 == 0, n: ci == 0}
+					for _, on := range u.os {
+						c.objs = append(c.objs, hobj{name: on, l: true, e: ci == 1})
+					}
+					h.colls = append(h.colls, c)
+				}
+				hiers[i] = h
+			}
+			wk := "/.well-known/caldav"
+			if srv == "card" {
+				wk = "/.well-known/carddav"
+			}
+			dstep := func(i int, start string) string {
+				return hx.L("dstep", worldSx(hiers[i].world()), hx.S(start), hiers[i].sx(pf.pt))
+			}
+			for _, order := range [][]int{{0, 1, 0}, {1, 0, 1}, {0, 2, 1, 0}, {2, 1}} {
+				for si := 0; si < 3; si++ {
+					var steps []string
+					for k, i := range order {
+						start := []string{wk, reqPath(pf.ps, nil, k%2 == 0), hiers[i].world().principal}[(si+k)%3]
+						steps = append(steps, dstep(i, start))
+					}
+					emitPrefixes("dhist", srv, hprefix, steps)
+				}
+			}
+		}
+	}
+}
+
 func main() {
 	out := flag.String("out", "", "output file")
 	replay := flag.String("replay", "", "file of case lines to re-run (inputs are re-executed)")
-	stage := flag.String("stage", "serve", "strings | serve | discovery")
+	stage := flag.String("stage", "serve", "strings | serve | discovery | history")
 	flag.Parse()
 	sink := hx.NewSink(*out)
 	defer sink.Close()
@@ -1138,7 +1515,7 @@ func main() {
 	inputs := make(chan string, 4096)
 	var wg sync.WaitGroup
 	workers := runtime.NumCPU()
-	if *stage == "discovery" && workers > 8 {
+	if (*stage == "discovery" || *stage == "history") && workers > 8 {
 		workers = 8
 	}
 	for w := 0; w < workers; w++ {
@@ -1158,6 +1535,8 @@ func main() {
 		genServe(emit)
 	case "discovery":
 		genDisc(emit)
+	case "history":
+		genHist(emit)
 	default:
 		fmt.Fprintln(os.Stderr, "c12: unknown stage", *stage)
 		os.Exit(2)
